@@ -45,34 +45,11 @@ type fnGen struct {
 	recvName string
 	viaName  string        // the explicit parameter that stands for the receiver's --via field
 	viaType  string        // its Coq type
-	deferred []*ast.CallExpr // the deferred calls registered so far (run last-in first-out before every return)
-	rename   map[types.Object]string // variables whose declaration hides another variable of the function: their Coq names
+	deferred *ast.CallExpr // the single deferred call of the function (runs before every return)
 	strOK    bool          // inside a discarded argument: string constants are accepted
 }
 
 func (g *fnGen) failf(n ast.Node, format string, a ...any) { g.t.failf(n, format, a...) }
-
-// idName / varName: the Coq name of a Go variable (renamed when its declaration
-// hides another variable of the function)
-func (g *fnGen) idName(id *ast.Ident) string {
-	if g.rename != nil {
-		if o := g.info.ObjectOf(id); o != nil {
-			if r, ok := g.rename[o]; ok {
-				return r
-			}
-		}
-	}
-	return coqIdent(id.Name)
-}
-
-func (g *fnGen) varName(v *types.Var) string {
-	if g.rename != nil {
-		if r, ok := g.rename[v]; ok {
-			return r
-		}
-	}
-	return coqIdent(v.Name())
-}
 
 func (g *fnGen) fresh() string {
 	g.tmp++
@@ -213,6 +190,9 @@ func (t *tr) function(fi *fnInfo) string {
 	if fi.mutates {
 		rts = append(rts, t.coqType(fi.decl, fi.recv.Type()))
 	}
+	if fi.mutParam != nil {
+		rts = append(rts, t.coqType(fi.decl, fi.mutParam.Type()))
+	}
 	for i := 0; i < sig.Results().Len(); i++ {
 		r := sig.Results().At(i)
 		if r.Name() != "" && r.Name() != "_" {
@@ -276,13 +256,7 @@ func (g *fnGen) shadowCheck() {
 		for s := v.Parent().Parent(); s != nil; s = s.Parent() {
 			if o := s.Lookup(v.Name()); o != nil {
 				if _, isVar := o.(*types.Var); isVar {
-					// the declaration hides a variable of an enclosing block: it gets a name of its own
-					if g.rename == nil {
-						g.rename = map[types.Object]string{}
-					}
-					if _, done := g.rename[v]; !done {
-						g.rename[v] = fmt.Sprintf("%s__%d", coqIdent(v.Name()), len(g.rename)+1)
-					}
+					g.failf(id, "declaration of %s hides a variable of an enclosing block", v.Name())
 				}
 			}
 			if s == fscope {
@@ -295,6 +269,9 @@ func (g *fnGen) shadowCheck() {
 
 // the result value: the (modified) receiver first, then the results
 func (g *fnGen) resultValue(vals []string) string {
+	if g.fi.mutParam != nil {
+		vals = append([]string{coqIdent(g.fi.mutParam.Name())}, vals...)
+	}
 	if g.fi.mutates {
 		vals = append([]string{g.recvName}, vals...)
 	}
@@ -334,55 +311,23 @@ func (g *fnGen) viaRecv(ty types.Type) string {
 }
 
 // viaOfCallee: the argument passed for the via parameter of the callee c (a
-// method of a struct with a --via field), and how the instance is stored back
-// when the callee modifies it (nil: the argument is a variable, rebound by the
-// pattern).  The instance is: the via parameter of this function; this
-// function's receiver; or the one field of this function's receiver that points
-// to a struct of that type (the cache that owns the map).
-func (g *fnGen) viaOfCallee(call *ast.CallExpr, c *fnInfo) (string, func(v string) []string) {
+// method of a struct with a --via field) called on the receiver expression recv
+func (g *fnGen) viaOfCallee(call *ast.CallExpr, c *fnInfo) string {
 	if g.fi.via {
-		return g.viaName, nil
+		return g.viaName
 	}
 	n := g.t.structOf(c.recv.Type())
 	vf := g.t.via[n.Origin().Obj().Name()]
 	st := n.Origin().Underlying().(*types.Struct)
 	for i := 0; i < st.NumFields(); i++ {
-		if st.Field(i).Name() != vf {
-			continue
-		}
-		if r := g.viaRecv(st.Field(i).Type()); r != "" {
-			return r, nil
-		}
-		target := g.t.structOf(st.Field(i).Type())
-		if g.fi.recv == nil || target == nil {
-			break
-		}
-		rn := g.t.structOf(g.fi.recv.Type())
-		if rn == nil {
-			break
-		}
-		rs := rn.Origin().Underlying().(*types.Struct)
-		si := g.t.structInfoOf(call, rn)
-		found := ""
-		for j := 0; j < rs.NumFields(); j++ {
-			if fn := g.t.structOf(rs.Field(j).Type()); fn != nil && fn.Origin().Obj() == target.Origin().Obj() && si.has(rs.Field(j).Name()) {
-				if found != "" {
-					found = ""
-					break
-				}
-				found = rs.Field(j).Name()
-			}
-		}
-		if found != "" {
-			read := "(" + si.name + "_" + found + " " + g.recvName + ")"
-			fld := found
-			return read, func(v string) []string {
-				return []string{"let " + g.recvName + " := set_" + si.name + "_" + fld + " " + g.recvName + " " + paren(v) + " in"}
+		if st.Field(i).Name() == vf {
+			if r := g.viaRecv(st.Field(i).Type()); r != "" {
+				return r
 			}
 		}
 	}
-	g.failf(call, "call of %s, whose struct has a --via field, outside the methods of that struct, of the struct the field points to, and of a struct that owns one such struct", c.name)
-	return "", nil
+	g.failf(call, "call of %s, whose struct has a --via field, outside the methods of that struct and of the struct the field points to", c.name)
+	return ""
 }
 
 // ---------------------------------------------------------------------------
@@ -434,7 +379,7 @@ func (g *fnGen) assigned(lo, hi token.Pos, nodes ...ast.Node) []svar {
 			g.failf(at, "assignment to the package-level variable %s", v.Name())
 		}
 		seen[v] = true
-		out = append(out, svar{g.varName(v), g.t.coqType(at, v.Type()), v.Pos()})
+		out = append(out, svar{coqIdent(v.Name()), g.t.coqType(at, v.Type()), v.Pos()})
 	}
 	viaSeen := false
 	addVia := func() {
@@ -479,6 +424,11 @@ func (g *fnGen) assigned(lo, hi token.Pos, nodes ...ast.Node) []svar {
 						place(sel.X, x)
 					}
 				}
+				if c := g.t.calleeOf(g.fi.pk, x); c != nil && c.mutParam != nil {
+					if a := g.mutArg(x, c); a != nil {
+						add(g.varOf(a), x)
+					}
+				}
 				if c := g.t.calleeOf(g.fi.pk, x); c != nil && c.mutVia {
 					if g.fi.via {
 						addVia()
@@ -497,6 +447,18 @@ func (g *fnGen) assigned(lo, hi token.Pos, nodes ...ast.Node) []svar {
 	}
 	sort.SliceStable(out, func(i, j int) bool { return out[i].pos < out[j].pos })
 	return out
+}
+
+// mutArg: the argument of the call that is passed for the callee's modified
+// interface parameter
+func (g *fnGen) mutArg(call *ast.CallExpr, c *fnInfo) ast.Expr {
+	csig := c.obj.Type().(*types.Signature)
+	for i := 0; i < csig.Params().Len() && i < len(call.Args); i++ {
+		if csig.Params().At(i) == c.mutParam {
+			return call.Args[i]
+		}
+	}
+	return nil
 }
 
 // viaBase: the sub-expression x.f (f a --via field) of a place that passes through it
@@ -543,8 +505,8 @@ func (g *fnGen) captured(lo, hi token.Pos, skip []svar, nodes ...ast.Node) []sva
 				return true
 			}
 			seen[v] = true
-			if !sk[g.varName(v)] {
-				out = append(out, svar{g.varName(v), g.t.coqType(id, v.Type()), v.Pos()})
+			if !sk[coqIdent(v.Name())] {
+				out = append(out, svar{coqIdent(v.Name()), g.t.coqType(id, v.Type()), v.Pos()})
 			}
 			return true
 		})
@@ -730,7 +692,7 @@ func (g *fnGen) block(list []ast.Stmt, k kctx) []string {
 				}
 				name := "_"
 				if id.Name != "_" {
-					name = g.idName(id)
+					name = coqIdent(id.Name)
 				}
 				out = append(out, emitPre(p, []string{"let " + name + " := " + v + " in"})...)
 			}
@@ -741,13 +703,8 @@ func (g *fnGen) block(list []ast.Stmt, k kctx) []string {
 		// the function body: it runs before every return that follows (a panic ends
 		// the run: GoPanic carries no state, so what the deferred call would do then
 		// is not observable)
-		if !k.top {
-			g.failf(s, "defer (only at the top level of the function body)")
-		}
-		switch libName(g.fi.pk, s.Call) {
-		case "(*sync.Mutex).Unlock", "(*sync.RWMutex).Unlock", "(*sync.RWMutex).RUnlock":
-			// sequential code: a deferred mutex release is a no-op
-			return g.block(rest, k)
+		if !k.top || g.deferred != nil {
+			g.failf(s, "defer (only one, at the top level of the function body)")
 		}
 		c := g.t.calleeOf(g.fi.pk, s.Call)
 		if c == nil || c.errCtor || len(s.Call.Args) != 0 {
@@ -759,35 +716,20 @@ func (g *fnGen) block(list []ast.Stmt, k kctx) []string {
 			g.failf(s, "defer of a method call on something that is not a variable")
 		}
 		for _, r := range rest {
-			switch r.(type) {
-			case *ast.ForStmt, *ast.RangeStmt:
-				if hasReturn(r) {
-					g.failf(s, "defer before a loop that returns")
-				}
+			if _, isFor := r.(*ast.ForStmt); isFor {
+				g.failf(s, "defer before a loop")
+			}
+			if _, isFor := r.(*ast.RangeStmt); isFor {
+				g.failf(s, "defer before a loop")
 			}
 		}
-		g.deferred = append(g.deferred, s.Call)
+		g.deferred = s.Call
 		out := g.block(rest, k)
 		return out
 	case *ast.ExprStmt:
-		if u, ok := ast.Unparen(s.X).(*ast.UnaryExpr); ok && u.Op == token.ARROW && g.t.chans {
-			// <-ch: a receive whose value is dropped
-			var p []binding
-			c := g.expr(u.X, &p)
-			p = append(p, binding{pat: "_", rhs: "chan_recv " + paren(c)})
-			return append(emitPre(p, nil), g.block(rest, k)...)
-		}
 		call, ok := ast.Unparen(s.X).(*ast.CallExpr)
 		if !ok {
 			g.failf(s, "expression statement that is not a call")
-		}
-		if id, ok := ast.Unparen(call.Fun).(*ast.Ident); ok && id.Name == "close" && g.t.chans {
-			if _, isB := g.info.Uses[id].(*types.Builtin); isB {
-				var p []binding
-				c := g.expr(call.Args[0], &p)
-				p = append(p, binding{pat: "_", rhs: "chan_close " + paren(c)})
-				return append(emitPre(p, nil), g.block(rest, k)...)
-			}
 		}
 		if id, ok := ast.Unparen(call.Fun).(*ast.Ident); ok {
 			if _, isB := g.info.Uses[id].(*types.Builtin); isB && id.Name == "panic" {
@@ -849,10 +791,8 @@ func (g *fnGen) block(list []ast.Stmt, k kctx) []string {
 
 // runDeferred: the deferred call as a statement
 func (g *fnGen) runDeferred(p *[]binding) {
-	for i := len(g.deferred) - 1; i >= 0; i-- {
-		if !g.callStmt(g.deferred[i], p, "_") {
-			g.failf(g.deferred[i], "deferred call")
-		}
+	if !g.callStmt(g.deferred, p, "_") {
+		g.failf(g.deferred, "deferred call")
 	}
 }
 
@@ -877,7 +817,20 @@ func (g *fnGen) returnStmt(s *ast.ReturnStmt, k kctx) []string {
 		g.runDeferred(&p)
 		return emitPre(p, k.ret(g.resultValue(tmps)))
 	}
-	if len(s.Results) == 1 && sig.Results().Len() > 1 || (len(s.Results) == 1 && k.top && !g.fi.mutates && g.isMonadicCall(s.Results[0])) {
+	if g.fi.mutParam != nil && len(s.Results) == 1 && sig.Results().Len() == 1 {
+		// return h.M(..) / return f(h, ..) with a call that rebinds the modified
+		// interface parameter: the call first, then the parameter's new value and the result
+		if call, ok := ast.Unparen(s.Results[0]).(*ast.CallExpr); ok {
+			if c := g.t.calleeOf(g.fi.pk, call); c != nil && !c.errCtor && (c.mutates || c.mutParam != nil) {
+				tmp := g.fresh()
+				if !g.callStmt(call, &p, tmp) {
+					g.failf(s, "return of this call")
+				}
+				return emitPre(p, k.ret(g.resultValue([]string{tmp})))
+			}
+		}
+	}
+	if len(s.Results) == 1 && sig.Results().Len() > 1 || (len(s.Results) == 1 && k.top && !g.fi.mutates && g.fi.mutParam == nil && g.isMonadicCall(s.Results[0])) {
 		call, ok := ast.Unparen(s.Results[0]).(*ast.CallExpr)
 		if !ok {
 			g.failf(s, "return of a multi-value that is not a call")
@@ -886,7 +839,7 @@ func (g *fnGen) returnStmt(s *ast.ReturnStmt, k kctx) []string {
 			if n != sig.Results().Len() {
 				g.failf(s, "return of a call with %d results", n)
 			}
-			if k.top && !g.fi.mutates {
+			if k.top && !g.fi.mutates && g.fi.mutParam == nil {
 				return emitPre(p, []string{term}) // tail call
 			}
 			tmp := g.fresh()
@@ -894,14 +847,14 @@ func (g *fnGen) returnStmt(s *ast.ReturnStmt, k kctx) []string {
 			return emitPre(p, k.ret(g.resultValue([]string{tmp})))
 		}
 		c := g.t.calleeOf(g.fi.pk, call)
-		if c == nil || c.mutates || c.mutVia {
+		if c == nil || c.mutates || c.mutVia || c.mutParam != nil {
 			g.failf(s, "return of this call")
 		}
 		term := g.userCall(call, c, &p)
 		if c.pure {
 			return emitPre(p, k.ret(g.resultValue([]string{term})))
 		}
-		if k.top && !g.fi.mutates {
+		if k.top && !g.fi.mutates && g.fi.mutParam == nil {
 			return emitPre(p, []string{term}) // tail call
 		}
 		tmp := g.fresh()
@@ -1106,7 +1059,7 @@ func (g *fnGen) loop(node ast.Stmt, cond ast.Expr, post ast.Stmt, body *ast.Bloc
 		rngSlice = fmt.Sprintf("rng_%d", myN)
 		pre = emitPre(p, []string{"let " + rngSlice + " := " + x + " in"})
 		if id, ok := rng.Key.(*ast.Ident); ok && id.Name != "_" {
-			rngKey = g.idName(id)
+			rngKey = coqIdent(id.Name)
 		} else {
 			rngKey = fmt.Sprintf("rng_%d_i", myN)
 		}
@@ -1114,7 +1067,7 @@ func (g *fnGen) loop(node ast.Stmt, cond ast.Expr, post ast.Stmt, body *ast.Bloc
 			if id, ok := rng.Value.(*ast.Ident); !ok {
 				g.failf(rng, "range value that is not an identifier")
 			} else if id.Name != "_" {
-				rngVal = g.idName(id)
+				rngVal = coqIdent(id.Name)
 			}
 		}
 		for _, v := range state {
@@ -1186,19 +1139,7 @@ func (g *fnGen) loop(node ast.Stmt, cond ast.Expr, post ast.Stmt, body *ast.Bloc
 		bl = append(bl, ") else (", "  ret (Done "+paren(fallV())+")", ")")
 	} else if cond != nil {
 		var p []binding
-		var c string
-		if call, ok := ast.Unparen(cond).(*ast.CallExpr); ok {
-			if cal := g.t.calleeOf(g.fi.pk, call); cal != nil && !cal.errCtor && (cal.mutates || cal.mutVia) {
-				// for x.M() { .. } with M modifying its receiver: the call as a statement, then the test
-				c = g.fresh()
-				if !g.callStmt(call, &p, c) {
-					g.failf(cond, "loop condition")
-				}
-			}
-		}
-		if c == "" {
-			c = g.expr(cond, &p)
-		}
+		c := g.expr(cond, &p)
 		bl = append(bl, emitPre(p, nil)...)
 		bl = append(bl, "if "+c+" then (")
 		bl = append(bl, indent(inner)...)
@@ -1295,8 +1236,8 @@ func (g *fnGen) defaultFuel(node ast.Node, cond, post ast.Node, body *ast.BlockS
 			}
 			switch x := e.(type) {
 			case *ast.Ident:
-				if v, ok := g.info.Uses[x].(*types.Var); ok && !v.IsField() && isSliceType(v.Type()) && !(v.Pos() >= lo && v.Pos() < hi) {
-					add(g.varName(v))
+				if v, ok := g.info.Uses[x].(*types.Var); ok && !v.IsField() && (isSliceType(v.Type()) || g.t.devirtSlice(v.Type()) != nil) && !(v.Pos() >= lo && v.Pos() < hi) {
+					add(coqIdent(v.Name()))
 				}
 			case *ast.SelectorExpr:
 				if sel, ok := g.info.Selections[x]; ok && sel.Kind() == types.FieldVal && isSliceType(sel.Type()) {
@@ -1339,7 +1280,7 @@ func (g *fnGen) assignTo(lhs ast.Expr, v string) []string {
 	switch x := ast.Unparen(lhs).(type) {
 	case *ast.StarExpr:
 		if id, ok := ast.Unparen(x.X).(*ast.Ident); ok && ptrSliceOf(g.typeOf(x.X)) {
-			return []string{"let " + g.idName(id) + " := " + v + " in"}
+			return []string{"let " + coqIdent(id.Name) + " := " + v + " in"}
 		}
 		g.failf(lhs, "assignment through a pointer")
 	case *ast.Ident:
@@ -1349,7 +1290,7 @@ func (g *fnGen) assignTo(lhs ast.Expr, v string) []string {
 		if _, ok := g.info.ObjectOf(x).(*types.Var); !ok {
 			g.failf(lhs, "assignment to %s", x.Name)
 		}
-		return []string{"let " + g.idName(x) + " := " + v + " in"}
+		return []string{"let " + coqIdent(x.Name) + " := " + v + " in"}
 	case *ast.IndexExpr:
 		var p []binding
 		if isMapType(g.typeOf(x.X)) {
@@ -1459,13 +1400,13 @@ func (g *fnGen) assign(s *ast.AssignStmt) []string {
 			if id, ok := ast.Unparen(s.Lhs[0]).(*ast.Ident); ok {
 				name := "_"
 				if id.Name != "_" {
-					name = g.idName(id)
+					name = coqIdent(id.Name)
 				}
 				if g.callStmt(call, &p, name) {
 					return emitPre(p, nil)
 				}
 				p = nil
-			} else if c := g.t.calleeOf(g.fi.pk, call); c != nil && !c.errCtor && (c.mutates || c.mutVia) {
+			} else if c := g.t.calleeOf(g.fi.pk, call); c != nil && !c.errCtor && (c.mutates || c.mutVia || c.mutParam != nil) {
 				// place = x.M(...) with M modifying its receiver: through a temporary
 				tmp := g.fresh()
 				if g.callStmt(call, &p, tmp) {
@@ -1492,7 +1433,7 @@ func (g *fnGen) assign(s *ast.AssignStmt) []string {
 				if id.Name == "_" {
 					pats = append(pats, "_")
 				} else {
-					pats = append(pats, g.idName(id))
+					pats = append(pats, coqIdent(id.Name))
 				}
 			}
 			var p []binding
@@ -1512,7 +1453,7 @@ func (g *fnGen) assign(s *ast.AssignStmt) []string {
 				if id.Name == "_" {
 					pats = append(pats, "_")
 				} else {
-					pats = append(pats, g.idName(id))
+					pats = append(pats, coqIdent(id.Name))
 				}
 			}
 			var p []binding
@@ -1532,7 +1473,7 @@ func (g *fnGen) assign(s *ast.AssignStmt) []string {
 			case ok && id.Name == "_":
 				pats = append(pats, "_")
 			case ok:
-				pats = append(pats, g.idName(id))
+				pats = append(pats, coqIdent(id.Name))
 			default:
 				// a field or an element: through a temporary
 				tmp := g.fresh()
@@ -1584,7 +1525,7 @@ func (g *fnGen) assign(s *ast.AssignStmt) []string {
 			if id.Name == "_" {
 				pats = append(pats, "_")
 			} else {
-				pats = append(pats, g.idName(id))
+				pats = append(pats, coqIdent(id.Name))
 			}
 		}
 		return emitPre(p, []string{"let '" + tuple(pats) + " := " + tuple(vals) + " in"})
@@ -1623,10 +1564,18 @@ func (g *fnGen) callStmt(call *ast.CallExpr, p *[]binding, pats ...string) bool 
 			g.failf(call, "call with %d results bound to %d places", nres, len(pats))
 		}
 		var writeBack []string
+		if c.mutParam != nil {
+			// the callee returns the new value of the slice behind its interface parameter
+			id, ok := ast.Unparen(g.mutArg(call, c)).(*ast.Ident)
+			if !ok {
+				g.failf(call, "call of %s, which rebinds its interface parameter, with an argument that is not a variable", c.name)
+			}
+			pats = append([]string{coqIdent(id.Name)}, pats...)
+		}
 		if c.mutates {
 			sel := ast.Unparen(call.Fun).(*ast.SelectorExpr)
 			if id, ok := ast.Unparen(sel.X).(*ast.Ident); ok {
-				pats = append([]string{g.idName(id)}, pats...)
+				pats = append([]string{coqIdent(id.Name)}, pats...)
 			} else if vs, ok := ast.Unparen(sel.X).(*ast.SelectorExpr); ok && g.t.isViaSel(g.fi.pk, vs) {
 				pats = append([]string{g.viaVar(call, vs)}, pats...)
 			} else if rootIdent(g.info, sel.X) != nil {
@@ -1639,14 +1588,7 @@ func (g *fnGen) callStmt(call *ast.CallExpr, p *[]binding, pats ...string) bool 
 			}
 		}
 		if c.mutVia {
-			read, write := g.viaOfCallee(call, c)
-			if write == nil {
-				pats = append([]string{read}, pats...)
-			} else {
-				tmp := g.fresh()
-				pats = append([]string{tmp}, pats...)
-				writeBack = append(writeBack, write(tmp)...)
-			}
+			pats = append([]string{g.viaOfCallee(call, c)}, pats...)
 		}
 		term := g.userCall(call, c, p)
 		pat := tuple(pats)
@@ -1748,7 +1690,7 @@ func (g *fnGen) expr(e ast.Expr, p *[]binding) string {
 				}
 				g.failf(e, "package-level variable %s", x.Name)
 			}
-			return g.idName(x)
+			return coqIdent(x.Name)
 		case *types.Nil:
 			g.failf(e, "nil in a position where its type is not known to the translator")
 		}
@@ -1760,9 +1702,6 @@ func (g *fnGen) expr(e ast.Expr, p *[]binding) string {
 			}
 			if g.t.isViaSel(g.fi.pk, x) {
 				return g.viaVar(e, x)
-			}
-			if pn := g.t.packedOf(g.typeOf(x.X)); pn != nil {
-				return "(" + g.t.packedParam(pn, x.Sel.Name).name + " " + paren(g.expr(x.X, p)) + ")"
 			}
 			if on := g.t.objectOf(g.typeOf(x.X)); on != nil {
 				k, fty := g.t.objField(e, on, x.Sel.Name)
@@ -1911,42 +1850,6 @@ func (g *fnGen) objComposite(cl *ast.CompositeLit, on *types.Named, p *[]binding
 }
 
 func (g *fnGen) composite(cl *ast.CompositeLit, p *[]binding) string {
-	if pn := g.t.packedOf(g.typeOf(cl)); pn != nil {
-		// a packed struct value: the pure parameter S_mk applied to the fields in declaration order
-		st := pn.Underlying().(*types.Struct)
-		vals := make([]string, st.NumFields())
-		for i := range vals {
-			vals[i] = g.t.zeroOf(cl, st.Field(i).Type())
-		}
-		for i, el := range cl.Elts {
-			if kv, ok := el.(*ast.KeyValueExpr); ok {
-				id, ok := kv.Key.(*ast.Ident)
-				if !ok {
-					g.failf(el, "composite literal key")
-				}
-				found := false
-				for j := 0; j < st.NumFields(); j++ {
-					if st.Field(j).Name() == id.Name {
-						vals[j] = g.exprAs(kv.Value, st.Field(j).Type(), p)
-						found = true
-					}
-				}
-				if !found {
-					g.failf(el, "no field %s", id.Name)
-				}
-			} else {
-				if i >= len(vals) {
-					g.failf(el, "too many values")
-				}
-				vals[i] = g.exprAs(el, st.Field(i).Type(), p)
-			}
-		}
-		parts := []string{g.t.packedParam(pn, "").name}
-		for _, v := range vals {
-			parts = append(parts, paren(v))
-		}
-		return "(" + strings.Join(parts, " ") + ")"
-	}
 	if g.t.opaqueName(g.typeOf(cl)) != "" {
 		// a value of an opaque library struct (sync.Pool{New: ...}): a handle; what
 		// the literal says (the New function) is part of the assumptions on the
@@ -2113,7 +2016,7 @@ func (g *fnGen) binary(x *ast.BinaryExpr, p *[]binding) string {
 			if isNil(x.X) {
 				other = x.Y
 			}
-			if (g.t.objectOf(g.typeOf(other)) != nil || g.t.opaqueName(g.typeOf(other)) != "") && (x.Op == token.EQL || x.Op == token.NEQ) {
+			if g.t.objectOf(g.typeOf(other)) != nil && (x.Op == token.EQL || x.Op == token.NEQ) {
 				// an object pointer: nil is 0
 				t := "(" + paren(g.expr(other, p)) + " =? 0)"
 				if x.Op == token.NEQ {
@@ -2212,8 +2115,7 @@ func (g *fnGen) userCall(call *ast.CallExpr, c *fnInfo, p *[]binding) string {
 			g.failf(call, "method expression")
 		}
 		if c.via {
-			read, _ := g.viaOfCallee(call, c)
-			parts = append(parts, read)
+			parts = append(parts, g.viaOfCallee(call, c))
 		}
 		parts = append(parts, paren(g.expr(sel.X, p)))
 	}
@@ -2277,9 +2179,6 @@ func (g *fnGen) effectCall(call *ast.CallExpr, p *[]binding) (string, bool) {
 				el := g.exprAs(call.Args[1], g.typeOf(call.Args[0]).Underlying().(*types.Slice).Elem(), p)
 				return "goappend " + paren(sl) + " " + paren(el), true
 			case "make":
-				if _, isChan := g.typeOf(call).Underlying().(*types.Chan); isChan && len(call.Args) == 1 && g.t.chans {
-					return "chan_make", true
-				}
 				if len(call.Args) != 2 || !isSliceType(g.typeOf(call.Args[0])) {
 					g.failf(call, "make other than make([]T, n)")
 				}
@@ -2342,11 +2241,6 @@ func (g *fnGen) call(call *ast.CallExpr, p *[]binding) string {
 				}
 				return "(s_" + id.Name + " " + paren(g.expr(call.Args[0], p)) + ")"
 			case "copy", "make", "append":
-				if _, isChan := g.typeOf(call).Underlying().(*types.Chan); id.Name == "make" && len(call.Args) == 1 && isChan && g.t.chans {
-					tmp := g.fresh()
-					*p = append(*p, binding{pat: tmp, rhs: "chan_make"})
-					return tmp
-				}
 				if id.Name == "make" && len(call.Args) == 1 && isMapType(g.typeOf(call)) {
 					g.t.coqType(call, g.typeOf(call))
 					return "mapnew"
@@ -2372,7 +2266,7 @@ func (g *fnGen) call(call *ast.CallExpr, p *[]binding) string {
 			}
 			return c.name
 		}
-		if c.mutates || c.mutVia {
+		if c.mutates || c.mutVia || c.mutParam != nil {
 			g.failf(call, "call of the receiver-modifying method %s inside an expression (only as a statement or as the whole right-hand side)", c.name)
 		}
 		if c.obj.Type().(*types.Signature).Results().Len() != 1 {
